@@ -3164,6 +3164,17 @@ class KmipEngine(object):
                 "No data to be MACed"
             )
 
+        if not hasattr(managed_object, 'state'):
+            raise exceptions.IllegalOperation(
+                "An {0} object has no state and cannot be used for "
+                "MACing.".format(
+                    ''.join(
+                        [x.capitalize() for x in
+                         managed_object._object_type.name.split('_')]
+                    )
+                )
+            )
+
         if managed_object.state != enums.State.ACTIVE:
             raise exceptions.PermissionDenied(
                 "Object is not in a state that can be used for MACing."
